@@ -22,6 +22,8 @@ use s2n_quic_core::{
 
 /// what insert_stream configured the stream with: (send window, receive window, desired window)
 static mut RECORDED: Option<(u64, u64, u32)> = None;
+/// how many streams were created, and the id of the last one
+static mut CREATED: (u64, Option<StreamId>) = (0, None);
 
 #[derive(Debug)]
 struct RecStream {
@@ -46,6 +48,7 @@ impl StreamTrait for RecStream {
                 config.initial_receive_window.as_u64(),
                 config.desired_flow_control_window,
             ));
+            CREATED = (CREATED.0 + 1, Some(config.stream_id));
         }
         let id = config.stream_id;
         core::mem::forget(config);
@@ -160,11 +163,99 @@ fn verif_manager_insert_stream_windows() {
     core::mem::forget(state);
 }
 
+// C04 / C12: which streams a frame may refer to. One incoming frame naming an arbitrary stream id
+// (either initiator, either type, index <= 2) arrives at a client or server with arbitrary
+// declared stream limits, `k` locally opened streams of that type and no peer-opened ones:
+//  * a peer-initiated id beyond OUR limit -> STREAM_LIMIT_ERROR and nothing is created;
+//  * otherwise that stream AND all lower-numbered ones of its type are created, exactly once
+//    (a second frame for the same id creates nothing: ids are never reused);
+//  * a locally-initiated id we have not opened yet -> STREAM_STATE_ERROR; one we did open is fine.
+#[cfg_attr(kani, kani::proof)]
+#[cfg_attr(kani, kani::unwind(5))]
+#[cfg_attr(kani, kani::stub(StreamContainer::insert_stream, stub_container_insert))]
+fn verif_manager_open_stream_if_necessary() {
+    let local = if kani::any() { endpoint::Type::Client } else { endpoint::Type::Server };
+    let our_bidi: u64 = kani::any();
+    let our_uni: u64 = kani::any();
+    kani::assume(our_bidi <= 1 << 60 && our_uni <= 1 << 60);
+    let initial_local_limits = InitialFlowControlLimits {
+        max_open_remote_bidirectional_streams: VarInt::new(our_bidi).unwrap(),
+        max_open_remote_unidirectional_streams: VarInt::new(our_uni).unwrap(),
+        ..Default::default()
+    };
+    let initial_peer_limits = InitialFlowControlLimits::default();
+    let limits = connection::Limits::default();
+    let mut state: StreamManagerState<RecStream> = StreamManagerState {
+        incoming_connection_flow_controller: IncomingConnectionFlowController::new(VarInt::from_u32(1000), 1000),
+        outgoing_connection_flow_controller: OutgoingConnectionFlowController::new(VarInt::from_u32(1000)),
+        stream_controller: stream::Controller::new(
+            local,
+            initial_peer_limits,
+            initial_local_limits,
+            stream::Limits::default(),
+            Duration::from_millis(10),
+        ),
+        streams: StreamContainer::new(&limits),
+        next_stream_ids: StreamIdSet::initial(),
+        local_endpoint_type: local,
+        initial_local_limits,
+        initial_peer_limits,
+        close_reason: None,
+        accept_state: AcceptState::new(local),
+        stream_limits: stream::Limits::default(),
+    };
+    let initiator = if kani::any() { endpoint::Type::Client } else { endpoint::Type::Server };
+    let ty = if kani::any() { StreamType::Bidirectional } else { StreamType::Unidirectional };
+    let idx: u64 = kani::any();
+    kani::assume(idx <= 2);
+    let id = StreamId::nth(initiator, ty, idx).unwrap();
+    // we have opened k streams of that type ourselves (what AbstractStreamManager records)
+    let k: u64 = kani::any();
+    kani::assume(k <= 3);
+    *state.next_stream_ids.get_mut(local, ty) = StreamId::nth(local, ty, k);
+    unsafe { CREATED = (0, None) };
+
+    let r = state.open_stream_if_necessary(id);
+    let created = unsafe { CREATED };
+    if initiator != local {
+        let our_limit = if ty == StreamType::Bidirectional { our_bidi } else { our_uni };
+        if idx >= our_limit {
+            assert!(matches!(r, Err(e) if e.code == transport::Error::STREAM_LIMIT_ERROR.code));
+            assert!(created.0 == 0);
+            assert!(*state.next_stream_ids.get_mut(initiator, ty) == StreamId::nth(initiator, ty, 0));
+            kani::cover!(idx == our_limit, "first stream beyond our limit rejected");
+        } else {
+            assert!(r.is_ok());
+            // the stream and every lower-numbered one of its type
+            assert!(created.0 == idx + 1);
+            assert!(created.1 == Some(id));
+            assert!(*state.next_stream_ids.get_mut(initiator, ty) == StreamId::nth(initiator, ty, idx + 1));
+            // a later frame for the same (or a lower) stream creates nothing
+            assert!(state.open_stream_if_necessary(id).is_ok());
+            assert!(unsafe { CREATED }.0 == idx + 1);
+            kani::cover!(idx == 2, "two lower-numbered streams created implicitly");
+        }
+        // our own id space is untouched
+        assert!(*state.next_stream_ids.get_mut(local, ty) == StreamId::nth(local, ty, k));
+    } else {
+        assert!(created.0 == 0);
+        if idx >= k {
+            assert!(matches!(r, Err(e) if e.code == transport::Error::STREAM_STATE_ERROR.code));
+            kani::cover!(idx == k, "frame for the next stream we have not opened yet");
+        } else {
+            assert!(r.is_ok());
+            kani::cover!(true, "frame for a stream we opened");
+        }
+    }
+    core::mem::forget(state);
+}
+
 // ---- generated by tools/fixup.py: native replay entry ----
 #[cfg(not(kani))]
 #[test]
 fn verif_replay() {
     kani::replay(&[
         ("verif_manager_insert_stream_windows", verif_manager_insert_stream_windows),
+        ("verif_manager_open_stream_if_necessary", verif_manager_open_stream_if_necessary),
     ]);
 }
